@@ -79,7 +79,7 @@ func classify(s *Spec, t *Taint, inMark bool) {
 	case "safedetailsnofmt":
 		U(0)
 		Sf(1)
-	case "new", "newf0", "assertf0", "wrapf0", "withmsgf0", "wrap", "withmsg", "wrapferr", "assertwraperr", "newfwerr", "wrapfgosyntax", "handledmsgf0", "stleaf", "stwrap":
+	case "new", "newf0", "assertf0", "wrapf0", "withmsgf0", "wrap", "wrapecho", "withmsg", "wrapferr", "assertwraperr", "newfwerr", "wrapfgosyntax", "handledmsgf0", "stleaf", "stwrap":
 		Sf(0)
 	case "newf", "assertf", "wrapf", "withmsgf", "safedetails", "assertwrap", "newfw", "newfwsuffix", "handledmsgf", "handledsafemsg":
 		Sf(0)
@@ -93,7 +93,7 @@ func classify(s *Spec, t *Taint, inMark bool) {
 		U(0)
 		U(1)
 	case "domnew", "goerr", "pkgnew", "grpcstatus", "unknownnet", "uleafptr", "uleafval", "uleafnc", "uleaffmtold", "rleaf", "risleaf", "uoptleaf",
-		"hint", "detail", "handledmsg", "goerrorf", "goerrorfsuffix", "pkgmsg", "pkgwrap", "uwrapnofmt", "uwrapcause", "uwrapsuffix", "uwrapoverride", "uopt", "uwrapfmtold", "rwrapfull", "uwrapasself", "uleafas",
+		"hint", "detail", "handledmsg", "goerrorf", "goerrorfsuffix", "goerrorfecho", "pkgmsgecho", "pkgmsg", "pkgwrap", "uwrapnofmt", "uwrapcause", "uwrapsuffix", "uwrapoverride", "uopt", "uwrapfmtold", "rwrapfull", "uwrapasself", "uleafas",
 		"goerrorfmulti", "umulti", "rmulti", "umulticause", "umulticauser", "umultias", "umultiis":
 		U(0)
 	case "addrerr", "dnsleaf", "dnswrap", "uleafformatter", "uwrapformatter", "uhinter":
@@ -146,6 +146,14 @@ func classify(s *Spec, t *Taint, inMark bool) {
 	case "netopsrc":
 		U(2)
 		U(3)
+	}
+	if s.K == "wrapecho" && s.C != nil {
+		// The caller put a copy of the cause's text into a message the
+		// library takes for a constant: those strings entered through a
+		// safe channel as well, so nothing is claimed about them.
+		for _, tk := range Tokens(Text(s.C)) {
+			t.Neutral[tk] = true
+		}
 	}
 	if s.C != nil {
 		classify(s.C, t, inMark)
